@@ -244,19 +244,25 @@ Loop:
 		// and the messages are finally assembled and sent to
 		// the client when and only when all the messages have been processed
 
-		// Whether all inMsgQueue messages have been processed
-		if !c.inMsgQueue.AllDone() {
+		// Replies are delivered in request order: flush the completed requests at the
+		// head of the queue, up to the first one that is still waiting for redis.
+		// Later requests never hold back replies that are ready.
+		var nDone int
+		for cur := c.inMsgQueue.head; cur != nil && cur.Done; cur = cur.prev {
+			nDone++
+		}
+		if nDone == 0 {
 			continue
 		}
 
-		var bs = make([][]byte, c.inMsgQueue.count)
+		var bs = make([][]byte, nDone)
 		bs = bs[:0]
 		cur := c.inMsgQueue.head
 
 		var curId uint64
 		var curFd = c.fd
 
-		for cur != nil {
+		for i := 0; i < nDone; i++ {
 			curId = cur.Id
 			bs = append(bs, cur.RspBody)
 			logging.Debugfunc(func() string { return fmt.Sprintf("[%dm][%dc] got res: %s", cur.Id, c.Fd(), cur.RspBodyString()) })
@@ -270,7 +276,7 @@ Loop:
 			}
 
 			if _, err = c.writev(bs[0:r]); err != nil {
-				logging.Warnf("[%dm][%dc] write to client failed, error: %s, body: %s", cur.Id, c.fd, err, cur.RspBodyString())
+				logging.Warnf("[%dm][%dc] write to client failed, error: %s", curId, curFd, err)
 				break
 			}
 			if !c.opened {
@@ -281,7 +287,7 @@ Loop:
 		}
 
 		if _, err = c.writev(bs); err != nil {
-			logging.Warnf("[%dm][%dc] write to client failed, error: %s, body: %s", cur.Id, c.fd, err, cur.RspBodyString())
+			logging.Warnf("[%dm][%dc] write to client failed, error: %s", curId, curFd, err)
 			continue
 		}
 
@@ -290,8 +296,8 @@ Loop:
 			continue
 		}
 
-		// release Msg
-		for {
+		// release the flushed Msg
+		for i := 0; i < nDone; i++ {
 			msg := c.dequeueInMsg()
 			if msg == nil {
 				break
